@@ -43,6 +43,15 @@ def check_C01(tier, seed):
     _run_family(out, "arith", pats, "Prop_C01", {0, 1} if tier == "quick" else {0, 1, 2}, md)
     from .checks_traces import run_traces
     run_traces(out, "C01", tier)
+    # large operands (tens of thousands of entries) in several storage orders: equal by label (an algorithm switched at a size limit)
+    from .checks_c04 import large_orbit
+    lbad = []
+    for case in ([("arith", 110)] if tier == "quick" else [("arith", 110), ("arith", 300)]):
+        probs = large_orbit(case)
+        if probs:
+            lbad.append(({"op": "large_orbit", "case": list(case)}, probs))
+    out.replayed += 1
+    out.judge(core.for_property(lbad, "C01"), "large", lambda v, p: {"engine": "large", "case": str(v["case"])})
     out.exhaustive = True
     out.assumptions += [
         "direction B: random programs over 4-5 dimensions recorded from the real library and validated by TLC against the contract "
